@@ -12,10 +12,19 @@
     are skeleton-consistent ([C05_program_skeleton_consistent]), so the item kept for the path
     (C01_lookup: the IR of the FIRST instantiation) represents every instantiation faithfully
     ([C05_program_faithful]).
-    MISSING for the full statement: the emission step as a theorem - that the tokens [emit_module]
-    prints for [ir_of_source d], parsed by Checkers/Parse.v, are [expected_item d] (marker field,
-    attributes, item syntax).  That step is decided per generated program by the checker
-    [prop_source_roundtrip] (Corr/RunC05.v) on the implementation's observed output.
+    ALSO PROVED (section "the emission step" at the end of this file; this header used to list it
+    as missing): the emission step - the tokens [emit_module] prints for the IR of a
+    coincidence-free instantiation, parsed by Checkers/Parse.v and stripped of derives / docs /
+    user attributes, are [expected_item d] (marker field, attributes, item syntax):
+    [C05_expected_item_of_ir], [C05_source_roundtrip], [C05_source_roundtrip_module]; the checker
+    [prop_source_roundtrip] (Corr/RunC05.v), still evaluated per generated program on the
+    implementation's observed output, is a consequence of the token correspondence [corr_gen]
+    wherever the decidable hypotheses hold ([C05_checker_verdict_from_correspondence]).
+    ALSO PROVED (section "the round trip on REAL registries"): all of the above on [RegistryOf1],
+    the specification with scale-info's one-step type identity, which real registries with
+    identity duplicates satisfy ([C05_skeleton_is_source1] and companions).
+    STILL OPEN: the module-level emission theorems are stated on [RegistryOf]; on [RegistryOf1]
+    only the item-level composition [C05_skeleton_is_source1] + [C05_expected_item_of_ir] holds.
     First: what [expected_item] -- the specification -- says. *)
 From Coq Require Import List NArith String Bool.
 From V Require Import Base.Strings Model.Registry Model.Program Checkers.Parse.
@@ -82,8 +91,9 @@ Print Assumptions C05_spec_erasures.
     derive) and [labels_injectiveb] ([C05_registry_ofb_split]).  The second conjunct is FALSE of
     real registries in which scale-info registered one type twice (it interns by the TypeId of one
     [Identity] step: [Vec<Box<T>>] next to [Vec<T>], [Box<Vec<T>>] next to [Vec<T>], ..): on those
-    [RegistryOf] does not hold and the theorems below say nothing (counted per run as
-    [hyp_identity_duplicates]).
+    [RegistryOf] does not hold and the theorems of THIS section say nothing (counted per run as
+    [hyp_identity_duplicates]); they are covered by the [RegistryOf1] versions further down
+    ([C05_skeleton_is_source1], ..; checked on every case as [corr_registry_of1]).
     NOT proved: the Coq re-implementation of the harness interner ([intern_program]). *)
 From V Require Import Base.Result Model.Settings Model.TypePath Model.Generate Model.Equal Model.WellFormed Model.Shape
   Model.ProgramSkel Model.ProgramTeq Model.ProgramExamples
@@ -323,7 +333,7 @@ Print Assumptions C05_example_prelude.
     boxes removed: [Box<T>::type_info] delegates), the id of a child type [x] being the id labelled
     [ident1 x]; unlabelled entries are the bit-order markers.  Real registries, identity duplicates
     included, satisfy it: [registry_of1b] is sound ([C05_registry_of1b_sound]) and is evaluated on
-    every generated case as [hyp_registry_of1] (Corr/RunC05.v) with the labels of the harness
+    every generated case as [hyp_registry_of1] / gate [corr_registry_of1] (Corr/RunC05.v) with the labels of the harness
     interner (which the derive tier compares with scale-info's real derive).
     The coincidence-freeness of the quantifier is restated on ids, as properties.jsonl words it
     ([instantiation_cf1]: no argument is interned under the id of a non-parameter component,
